@@ -50,6 +50,8 @@ type Op struct {
 type Case struct {
 	Mode    string   `json:"mode,omitempty"`   // "" = pool stream, "verify" = verify-then-add stream
 	Latest  string   `json:"latest,omitempty"` // verify mode: round of the latest block
+	ASeed   uint64   `json:"aseed,omitempty"`  // app mode: seed of the history
+	Blocks  int      `json:"blocks,omitempty"` // app mode: number of consensus blocks
 	Tag     string   `json:"tag"`
 	Members []Member `json:"m"`
 	Ops     []Op     `json:"ops"`
@@ -353,7 +355,7 @@ func runCase(c Case) (res runResult) {
 			if err == nil && !panicked {
 				ledger = append(ledger, accepted{o.C.Node, o.C.Sched, o.C.Fail, vote})
 			}
-			res.coqObs = append(res.coqObs, fmt.Sprintf("(%d, noCh, %d, %s)", code, pool.HighestRank, coqout.Bool(pool.Discrepancy)))
+			res.coqObs = append(res.coqObs, fmt.Sprintf("(%d, noCh, %s, %s)", code, hrTerm(pool.HighestRank), coqout.Bool(pool.Discrepancy)))
 		case "proc", "probe":
 			res.coqOps = append(res.coqOps, fmt.Sprintf("%s %d %s", map[string]string{"proc": "OProc", "probe": "OProbe"}[o.K], o.Strag, coqout.Bool(o.Timeout)))
 			p := pool
@@ -431,7 +433,7 @@ func runCase(c Case) (res runResult) {
 					}
 				}
 			}
-			res.coqObs = append(res.coqObs, fmt.Sprintf("(%d, %s, %d, %s)", code, chosen, p.HighestRank, coqout.Bool(p.Discrepancy)))
+			res.coqObs = append(res.coqObs, fmt.Sprintf("(%d, %s, %s, %s)", code, chosen, hrTerm(p.HighestRank), coqout.Bool(p.Discrepancy)))
 		}
 	}
 	// final snapshot
@@ -463,6 +465,13 @@ func runCase(c Case) (res runResult) {
 		res.coqSnap = append(res.coqSnap, fmt.Sprintf("(%d, (%s, %s))", r, cn, coqout.List(vs)))
 	}
 	return res
+}
+
+func hrTerm(r uint64) string {
+	if r == ^uint64(0) {
+		return "U64MAX"
+	}
+	return strconv.FormatUint(r, 10)
 }
 
 func coqCommittee(ms []Member) string {
@@ -699,9 +708,17 @@ func main() {
 	exhLen := flag.Int("exh-len", 2, "exhaustive scope: max sequence length")
 	out := flag.String("out", "", "output directory")
 	replay := flag.String("replay", "", "replay a case description (JSON file)")
-	mode := flag.String("mode", "pool", "pool | verify")
+	mode := flag.String("mode", "pool", "pool | verify | app")
+	blocksFlag := flag.Int("blocks", 36, "app mode: consensus blocks per history")
+	probe := flag.Uint64("app-probe", 0, "debug: run one app-level history and print it")
 	flag.Parse()
-	vInit()
+	if *probe != 0 {
+		appProbe(*probe)
+		return
+	}
+	if *mode != "app" {
+		vInit()
+	}
 	if *out == "" {
 		fmt.Fprintln(os.Stderr, "need -out")
 		os.Exit(2)
@@ -722,9 +739,10 @@ func main() {
 			panic(err)
 		}
 		replayCase = &c
-		if c.Mode == "verify" {
-			*mode = "verify"
-		} else {
+		switch c.Mode {
+		case "verify", "app":
+			*mode = c.Mode
+		default:
 			*mode = "pool"
 		}
 	}
@@ -733,6 +751,10 @@ func main() {
 	if *mode == "verify" {
 		hdr = "From Verif Require Import Lib.Base Roothash.Pool Roothash.Verify.\n"
 		w = coqout.NewWriter(*out, hdr, "run_vcase", "case_eqb", 400)
+	}
+	if *mode == "app" {
+		hdr = "From Verif Require Import Lib.Base Roothash.Pool Roothash.Verify Roothash.App.\n"
+		w = coqout.NewWriter(*out, hdr, "run_acase", "acase_eqb", 8)
 	}
 	sum := coqout.NewSummary("(1) exhaustive: all sequences of <= exh-len commitments over (members + one non-member) x (every worker as scheduler) x {agree, dissent A, dissent B, failure} for every committee with primary 1..exh-np, backup 0..exh-nb and every overlap, with ProcessCommitments probed on a copy of the pool after every prefix for stragglers 0..2 with and without timeout and one seeded state-changing call; (2) seeded structured rounds on committees 1..3 + 0..3 and 3..12 + 0..12 (scheduler proposes, members vote in a random order, 0/10/35% dissent, 0/10/30% failures, duplicates, non-members, other schedulers, 12% malformed: shuffled or invalid roles, duplicate members, mixed rounds, rounds near 2^64). non-trivial = some process call returned something other than still-waiting / no-scheduler-commitment; distinct = distinct case descriptions")
 	seen := map[string]bool{}
@@ -768,7 +790,46 @@ func main() {
 			sum.Violations = append(sum.Violations, map[string]any{"what": r2.violated, "case": c2})
 		}
 	}
-	if replayCase != nil {
+	handleApp := func(c Case) {
+		res := runAppHistory(c.ASeed, c.Blocks)
+		sum.Evaluations++
+		if res.nontriv {
+			sum.DistinctNontrivial++
+		}
+		for k, v := range res.stats {
+			parts := strings.SplitN(k, ":", 2)
+			m := sum.Histograms[parts[0]]
+			if m == nil {
+				m = map[string]int{}
+				sum.Histograms[parts[0]] = m
+			}
+			m[parts[1]] += v
+		}
+		sum.Sample(c, 3)
+		if res.term != "" {
+			w.Add(res.term, map[string]any{"case": c})
+		}
+		if res.violated != "" && nviol < 5 {
+			nviol++
+			// shrink: the shortest prefix of the history that still fails
+			for n := 1; n < c.Blocks; n++ {
+				if r2 := runAppHistory(c.ASeed, n); r2.violated != "" {
+					c.Blocks, res = n, r2
+					break
+				}
+			}
+			sum.Violations = append(sum.Violations, map[string]any{"what": res.violated, "case": c})
+		}
+	}
+	if replayCase != nil && replayCase.Mode == "app" {
+		handleApp(*replayCase)
+	} else if *mode == "app" {
+		sum.Rule = "histories of the real roothash application behind the real ABCI multiplexer: one validator, one non-TEE compute runtime (group 1..3, backup 0..2, round timeout 0/1/2/3/5 blocks, stragglers 0/1), epoch interval 3..5 blocks, compute-node registrations expiring after 2..4 epochs (suspension, also while a round timeout is armed) and re-registration; per block a seeded choice of signed ExecutorCommit transactions (scheduler only, all agree, conflicting, failure-indicating, early backup votes, backup resolution with agreeing / split / failing votes, rank-1 scheduler rounds, wrong round / future round of rank 0 / wrong parent / non-member / other scheduler) or nothing (timeouts run out). One case = one history; non-trivial = a discrepancy was detected or a Normal / RoundFailed block was emitted"
+		r := prng.New(*seed ^ 0xa99)
+		for i := 0; i < *n; i++ {
+			handleApp(Case{Mode: "app", Tag: "app", ASeed: 1 + r.U64()%1000000, Blocks: *blocksFlag})
+		}
+	} else if replayCase != nil {
 		handle(*replayCase)
 	} else if *mode == "verify" {
 		sum.Rule = "verify-then-add rounds as in the roothash application: well-formed committees 1..4 + 0..3 with overlaps, latest block round 0..9, every commitment signed by a node key; 10/30/60% of the commitments carry one deviation (header round = latest, latest+2, or a future round mapping the scheduler to rank 0; wrong previous hash; scheduler id of a backup worker / non-member; the scheduler's own failure; non-member signer; wrong messages hash; corrupted or foreign signature; missing / superfluous header fields; invalid failure code). non-trivial = some process call returned something other than still-waiting / no-scheduler-commitment"
